@@ -140,6 +140,7 @@ func (r *Result) Write(dir string) {
 // ---- cases files: cases_<shard>.v (Coq) + cases.jsonl (for replay lookup) ----
 type Cases struct {
 	dir    string
+	name   string
 	header string // Coq prelude: Requires + definition of `check : case -> bool`... see Begin
 	per    int
 	shard  int
@@ -156,14 +157,24 @@ type Cases struct {
 // NewCases: header = Require lines; caseTy = Coq type of one case (without the index);
 // evalFn = Coq function `caseTy -> bool` returning true when model and implementation agree.
 func NewCases(dir, header, caseTy, evalFn string, perShard int) *Cases {
-	jf, err := os.Create(filepath.Join(dir, "cases.jsonl"))
+	return NewCasesNamed(dir, "", header, caseTy, evalFn, perShard)
+}
+
+// NewCasesNamed: a second, independent family of case files (cases_<name>NNN.v, cases_<name>.jsonl)
+// for harnesses that compare more than one kind of observation.
+func NewCasesNamed(dir, name, header, caseTy, evalFn string, perShard int) *Cases {
+	jn := "cases.jsonl"
+	if name != "" {
+		jn = "cases_" + name + ".jsonl"
+	}
+	jf, err := os.Create(filepath.Join(dir, jn))
 	if err != nil {
 		panic(err)
 	}
-	return &Cases{dir: dir, header: header, per: perShard, caseTy: caseTy, evalFn: evalFn, jf: jf, jl: bufio.NewWriter(jf)}
+	return &Cases{dir: dir, name: name, header: header, per: perShard, caseTy: caseTy, evalFn: evalFn, jf: jf, jl: bufio.NewWriter(jf)}
 }
 func (c *Cases) open() {
-	f, err := os.Create(filepath.Join(c.dir, fmt.Sprintf("cases_%03d.v", c.shard)))
+	f, err := os.Create(filepath.Join(c.dir, fmt.Sprintf("cases_%s%03d.v", c.name, c.shard)))
 	if err != nil {
 		panic(err)
 	}
